@@ -39,7 +39,7 @@ def acc_strategy(tier):
     @st.composite
     def s(draw):
         spec = draw(gen.dataset(max_inputs=1, clim=False, flavor="det", core_max=4, extra_max=1, allow_drop=False, ordered_dims=True,
-                                allow_obsless=False).filter(small_times))
+                                allow_obsless=False, before_2037=True))
         d = spec["inputs"][0]
         axis = draw(st.sampled_from(["leadtime", "leadtime", "time"]))
         n = len(d["li"]) if axis == "leadtime" else len(d["ti"])
@@ -198,9 +198,9 @@ def ens_strategy(tier):
     @st.composite
     def s(draw):
         spec = draw(gen.dataset(max_inputs=1, clim=False, flavor="ens", core_max=3, extra_max=1, allow_drop=False, ordered_dims=True,
-                                allow_obsless=False, max_members=5).filter(small_times))
+                                allow_obsless=False, max_members=5, before_2037=True))
         members = sorted(set(v for pl in spec["inputs"][0]["ens"] for row in pl for cell in row for v in cell if v is not None)) or [0.0]
-        thr = sorted(draw(st.lists(st.sampled_from(members + [members[0] - 1, members[-1] + 1, 0.125]), min_size=0, max_size=3, unique=True)))
+        thr = draw(st.lists(st.sampled_from(members + [members[0] - 1, members[-1] + 1, 0.125]), min_size=0, max_size=3, unique=True))   # any order
         qs = sorted(draw(st.lists(st.sampled_from([0.0, 0.1, 0.25, 0.5, 0.75, 0.9, 1.0]), min_size=0, max_size=4, unique=True)))
         return {"spec": spec, "thresholds": thr, "quantiles": qs, "pit": draw(st.booleans()), "kind": draw(st.sampled_from(["text", "netcdf"]))}
     return s()
@@ -257,7 +257,8 @@ def check_ens2prob(case, ctx):
         v = cdf[~np.isnan(cdf)]
         if ((v < -1e-6) | (v > 1 + 1e-6)).any():
             ctx.fail("C20/ens2prob/cdf/range", sub, "cumulative probabilities outside [0,1]: %r" % v[(v < 0) | (v > 1)][:5].tolist())
-        dif = np.diff(cdf, axis=3)
+        order = np.argsort(case["thresholds"])
+        dif = np.diff(cdf[..., order], axis=3)
         if (dif[~np.isnan(dif)] < -1e-6).any():
             ctx.fail("C20/ens2prob/cdf/monotone", sub, "cumulative probability decreases with the threshold")
         for k, t in enumerate(case["thresholds"]):
